@@ -17,7 +17,7 @@ def faultAtt (t : Nat) (fault : String) : Nat → Att := fun _ =>
     steps succeed at once. Under every fault no step that meets it ever receives a final response, so the call ends in
     an error, and (by `returns_by_deadline` / `sequence_returns_by_deadline` / `retrieval_returns_by_deadline`) not after
     the deadline. -/
-def evalTime (args : List String) : String :=
+def evalTime1 (args : List String) : String :=
   match args with
   | [call, t, d, faultK] =>
     match t.toNat?, d.toNat? with
@@ -36,5 +36,13 @@ def evalTime (args : List String) : String :=
       | none => "res=none late=1"
     | _, _ => "bad-op"
   | _ => "bad-op"
+
+/-- with a fifth argument `again` the same call is made twice under the persisting fault: two independent runs -/
+def evalTime (args : List String) : String :=
+  match args with
+  | [call, t, d, f, "again"] =>
+    let r := evalTime1 [call, t, d, f]
+    if r == "bad-op" then r else s!"{r} {(r.replace "res=" "res2=").replace "late=" "late2="}"
+  | _ => evalTime1 args
 
 end Bmc.Driver
